@@ -80,6 +80,48 @@ def limit_scenarios(tier):
         if tier == "thorough":
             src = "let OBS = [];\nfn f(c) { match c { true => { %s 1 }, _ => 3 } }\npush(OBS, f(false));\n" % body
             out.append(("jump-distance-match-arm~%d" % needed, "Jump", 1, needed, src, 3, ["ok"]))
+    # every kind of jump behind a long stretch of straight-line code: with the stretch just short enough all targets fit
+    # and the function runs; a little longer and every target inside the construct is out of reach - a compile error,
+    # whichever emitter wrote the jump (if / else, while, loop + break, continue, labelled break, match, && and ||)
+    far = {
+        "loop-break": ("let n = 0; loop { n = n + 1; if n > 2 { break; } } n", 3),
+        "while-continue": ("let n = 0; let k = 0; while n < 4 { n = n + 1; if n % 2 == 0 { continue; } k = k + 1; } k", 2),
+        "labelled-break": ("let n = 0; outer: loop { loop { n = n + 1; if n > 1 { break outer; } } } n", 2),
+        "labelled-continue": ("let n = 0; let k = 0; outer: while n < 3 { n = n + 1; loop { k = k + 1; continue outer; } } k", 3),
+        "if-else": ("if c { 1 } else { 2 }", 2),
+        "match": ("match c { true => 1, _ => 3 }", 3),
+        "and-or": ("(c && 1) || 5", 5),
+        "while": ("let n = 0; while n < 2 { n = n + 1; } n", 2),
+    }
+    for nst in (16000, 16400):
+        prefix = " ".join("%d;" % (j % 10) for j in range(nst))
+        for name, (construct, want) in far.items():
+            if tier == "quick" and nst == 16000 and name not in ("loop-break", "labelled-continue", "match"):
+                continue
+            src = "let OBS = [];\nfn f(c) { %s %s }\npush(OBS, f(false));\n" % (prefix, construct)
+            out.append(("jump-far-%s~%d" % (name, nst * 4 + 20), "Jump", 1, nst * 4 + 20, src, want, ["ok"]))
+    # the long stretch inside the loop: the loop starts within reach, only the way out of it does not
+    for nst in (16000, 16400):
+        body = " ".join("%d;" % (j % 10) for j in range(nst))
+        inside = {
+            "loop-body-break": ("let n = 0; loop { n = n + 1; %s break; } n" % body, 1),
+            "loop-body-labelled-break": ("let n = 0; outer: loop { loop { n = n + 1; %s break outer; } } n" % body, 1),
+            "loop-body-break-first": ("let n = 0; loop { n = n + 1; if n > 1 { break; } %s } n" % body, 2),
+        }
+        for name, (construct, want) in inside.items():
+            src = "let OBS = [];\nfn f(c) { %s }\npush(OBS, f(false));\n" % construct
+            out.append(("jump-out-of-%s~%d" % (name, nst * 4 + 20), "Jump", 1, nst * 4 + 20, src, want, ["ok"]))
+    # a closure that is called where it is written (no local to hold it): n captured variables need only n locals
+    for n in (255, 256):
+        lets = " ".join("let v%d = %d;" % (i, i % 3) for i in range(n))
+        uses = " + ".join("v%d" % i for i in range(n))
+        src = "let OBS = [];\nfn o() { %s fn() { %s }() }\npush(OBS, o());\n" % (lets, uses)
+        out.append(("captured-direct=%d" % n, "Closure", 2, n, src, sum(i % 3 for i in range(n)), ["ok"]))
+    # global variables: OBS is number 0, g1 .. g<n-1> follow; the last one needs index n-1
+    for n in ((65536, 65537) if tier == "quick" else (65535, 65536, 65537, 65600)):
+        body = "".join("let g%d = %d;\n" % (i, i % 9) for i in range(1, n))
+        src = "let OBS = [];\n" + body + "g%d = g%d + 1;\npush(OBS, g%d);\n" % (n - 1, n - 1, n - 1)
+        out.append(("globals=%d" % n, "DefineGlobal", 1, n - 1, src, (n - 1) % 9 + 1, ["ok"]))
     return out
 
 
